@@ -909,6 +909,22 @@ def scan_guards(repo, consts, flags):
         r'bool match = this_posts\.size\(\) == other_posts\.size\(\) && std::equal\(this_posts\.begin\(\), this_posts\.end\(\), '
         r'other_posts\.begin\(\), is_equivalent_posting\);', jc)) or bool(re.search(
         r'std::equal\(this_posts\.begin\(\), this_posts\.end\(\), other_posts\.begin\(\), other_posts\.end\(\), is_equivalent_posting\)', jc))
+    # the repairs proposed for F172..F178 (false while they are not in the source)
+    def src_has(fname, rx):
+        try:
+            return bool(re.search(rx, norm(strip_comments(open(os.path.join(src, fname), errors='replace').read()))))
+        except OSError:
+            return False
+    g['pager_close_guard'] = src_has('main.cc', r'try \{ global_scope->quick_close\(\); \} catch \(const std::exception& err\)')
+    g['query_quoted_token_start'] = src_has('query.cc', r"case '/': \{ prev_arg_i = arg_i; string pat;")
+    g['post_xact_null_guards'] = src_has('post.cc', r'if \(post\.xact && post\.xact->code\)') and \
+        src_has('post.cc', r'foreach \(post_t \* p, post\.xact \? post\.xact->posts : own_post\)') and \
+        src_has('post.cc', r'value_t get_magnitude\(post_t& post\) \{ if \(! post\.xact\) return NULL_VALUE;')
+    g['value_expr_reentry_guard'] = src_has('commodity.cc', r'if \(base->value_expr && ! base->has_flags\(COMMODITY_VALUE_EXPR_RUNNING\)\)') and \
+        src_has('annotate.cc', r'if \(details\.value_expr && ! base->has_flags\(COMMODITY_VALUE_EXPR_RUNNING\)\)')
+    g['repetition_bound'] = src_has('value.cc', r'if \(static_cast<unsigned long>\(count\) > max_repeated_size / as_string\(\)\.length\(\)\) throw_') and \
+        src_has('value.cc', r'if \(count > 0 && static_cast<unsigned long>\(count\) > max_repeated_size\) throw_')
+    g['sort_empty_component_guard'] = src_has('compare.cc', r'expr_t::ptr_op_t node, scope_t& scope\) \{ if \(! node\) throw_')
     # (d) the period parser rejects `every 0 <unit>`
     tc = strip_comments(open(os.path.join(src, 'times.cc'), errors='replace').read())
     m = re.search(r'case\s+lexer_t::token_t::TOK_EVERY\s*:(.*?)case\s+lexer_t::token_t::TOK_YEARS', tc, re.S)
@@ -980,6 +996,21 @@ def depth_edges(repo):
             ok = any(re.search(r'\bdepth\b', a) for a in (args[2:] if kind in ('calc', 'call_scope_t') else args[1:]))
             out.append(('%s:%s:%s#%d' % (f, label_fn, kind, count[key]), ok))
     return out
+
+
+def scope_identifiers(repo):
+    """names that the lookup() functions of postings, items, transactions and accounts answer to
+    (post.cc, item.cc, xact.cc, account.cc): string literals compared with the looked-up name"""
+    names = set()
+    for f in ('post.cc', 'item.cc', 'xact.cc', 'account.cc'):
+        t = strip_comments(open(os.path.join(repo, 'src', f), errors='replace').read())
+        for m in re.finditer(r'::lookup\s*\(', t):
+            b = t.find('{', m.end())
+            if b < 0:
+                continue
+            body = t[b:match_brace(t, b)]
+            names |= set(re.findall(r'(?:fn_)?name\s*==\s*"([a-z_]+)"', body))
+    return sorted(names)
 
 
 def report_functions(repo):
@@ -1070,6 +1101,13 @@ def generate(repo):
           'Definition src_finalize_pick_uses_count_predicate : bool := %s.' % bl(g['finalize_pick_uses_count_predicate']),
           '(* journal.cc add_xact: sizes compared before the three-iterator std::equal (proposed for F68) *)',
           'Definition src_uuid_size_test_first : bool := %s.' % bl(g['uuid_size_test_first']),
+          '(* the repairs proposed for F172-F178: false while they are not in the source *)',
+          'Definition src_pager_close_guard : bool := %s.' % bl(g['pager_close_guard']),
+          'Definition src_query_quoted_token_start : bool := %s.' % bl(g['query_quoted_token_start']),
+          'Definition src_post_xact_null_guards : bool := %s.' % bl(g['post_xact_null_guards']),
+          'Definition src_value_expr_reentry_guard : bool := %s.' % bl(g['value_expr_reentry_guard']),
+          'Definition src_repetition_bound : bool := %s.' % bl(g['repetition_bound']),
+          'Definition src_sort_empty_component_guard : bool := %s.' % bl(g['sort_empty_component_guard']),
           '(* journal.cc expand_aliases: each branch records in already_seen the name it looked up (Model/Aliases.v) *)',
           'Definition src_alias_records_what_it_looks_up : bool := %s.' % bl(g['alias_records_what_it_looks_up']),
           '(* format.cc parse_elements `%$N`: template / index / null tests exactly as modelled in Model/FormatRef.v *)',
